@@ -388,8 +388,15 @@ deriving DecidableEq, Repr
 /-- comparison of two `repr` strings: Python compares `str` by code points, lexicographically -/
 def reprLE (a b : Str) : Bool := decide (a ≤ b)
 
-/-- `sorted(keys, key=repr)` (stable, as `mergeSort`) -/
-def sortByRepr (l : List Str) : List Str := l.mergeSort reprLE
+/-- insertion into a sorted list of `repr`s -/
+def insertRepr (a : Str) : List Str → List Str
+  | [] => [a]
+  | b :: l => if reprLE a b then a :: b :: l else b :: insertRepr a l
+
+/-- `sorted(keys, key=repr)`. A key is modelled by its `repr`, so elements with equal sort keys are
+equal and the stability of Python's sort cannot be observed: every sorting algorithm returns the same
+list (`sortByRepr_perm_eq`); insertion sort is structurally recursive, so the kernel can run it -/
+def sortByRepr (l : List Str) : List Str := l.foldr insertRepr []
 
 /-- `_get_python_keys(dicts)`: the generator, in the order in which the dicts are iterated -/
 def getPythonKeys (cfg : DictCfg) (dicts : List DictVal) : List Str :=
